@@ -160,22 +160,6 @@ func runConc(c J) J {
 	}
 	obs["srcs"] = ss
 
-	// ---- alone: the same work, one goroutine, fresh engine each
-	alone := make([]concOut, G)
-	for g := 0; g < G; g++ {
-		ex := quietEngine(pre, post, comp)
-		call, res := compileOn(ex, srcs[g], tenvs[g]())
-		if res.compile == "ok" {
-			res.o = invoke(func() (*val.Val, error) { return call(venvs[g]()) })
-		}
-		alone[g] = res
-	}
-	aj := A{}
-	for _, r := range alone {
-		aj = append(aj, r.J())
-	}
-	obs["alone"] = aj
-
 	rng := rand.New(rand.NewSource(int64(toInt(c["id"]))*7919 + int64(toInt(nzInt(c["oseed"])))))
 	window := func(hook bool) (A, A) {
 		results := make([][]concOut, G)
@@ -271,6 +255,24 @@ func runConc(c J) J {
 	}
 	obs["conc"], _ = window(false)
 	obs["conc2"], obs["draws"] = window(true)
+	// (the reference runs come AFTER the windows, so that whatever is initialised lazily on first use --
+	// the time-zone cache -- is first used concurrently)
+	// ---- alone: the same work, one goroutine, fresh engine each
+	alone := make([]concOut, G)
+	for g := 0; g < G; g++ {
+		ex := quietEngine(pre, post, comp)
+		call, res := compileOn(ex, srcs[g], tenvs[g]())
+		if res.compile == "ok" {
+			res.o = invoke(func() (*val.Val, error) { return call(venvs[g]()) })
+		}
+		alone[g] = res
+	}
+	aj := A{}
+	for _, r := range alone {
+		aj = append(aj, r.J())
+	}
+	obs["alone"] = aj
+
 	// for invoke / odd mixed goroutines the shared callable was compiled from srcs[0] with goroutine 0's
 	// types: what "alone" means for them is srcs[0] in their own environment
 	if kind == "invoke" || kind == "mixed" {
